@@ -993,3 +993,35 @@ mod tests {
     assert_eq!(round_tripped, payload, "gunzipped bytes must match source");
   }
 }
+
+/// Verification-only accessor (cfg `excsn_fibre_verif`): the roller with an
+/// injectable clock.
+#[cfg(excsn_fibre_verif)]
+pub mod verif {
+  use super::*;
+
+  pub struct Roller(CustomRoller);
+
+  impl Roller {
+    pub fn open_at(policy: RollingPolicyInternal, now: DateTime<Utc>) -> Result<Self> {
+      CustomRoller::new_at_time(policy, now, None).map(Roller)
+    }
+
+    /// `Write::write_all` with the clock reading `now`.
+    pub fn write_all_at(&mut self, mut buf: &[u8], now: DateTime<Utc>) -> io::Result<()> {
+      while !buf.is_empty() {
+        match self.0.write_internal(buf, now) {
+          Ok(0) => return Err(io::Error::new(io::ErrorKind::WriteZero, "failed to write whole buffer")),
+          Ok(n) => buf = &buf[n..],
+          Err(e) if e.kind() == io::ErrorKind::Interrupted => {}
+          Err(e) => return Err(e),
+        }
+      }
+      Ok(())
+    }
+
+    pub fn flush(&mut self) -> io::Result<()> {
+      self.0.flush()
+    }
+  }
+}
